@@ -26,7 +26,7 @@ LEVEL_TEXT = ("Seeded restart-fault exploration: the JSON save/load path is exer
 LEVEL_NOTE = "Trusted: in-memory file shim (cross-checked against a real directory in a sampled fraction), dump comparison; sampling evidence only."
 PROBES = ["stage_built", "stage_initialized", "stage_paused", "stage_finished", "stage_backward", "stage_edited",
           "with_subproject_task", "with_task_rules", "with_mainwp", "with_conveyor", "zero_lst_value", "resimulated_twin", "real_directory_used",
-          "unconfigured_subproject_task"]
+          "unconfigured_subproject_task", "non_auto_subproject_task"]
 
 
 def budget(tier):
@@ -60,6 +60,13 @@ def gen(rng, tier):
                            "sub": {"file": "mem:sub0.json", "unit_s": 60, "remove_abs": rng.random() < 0.5, "configure": rng.random() < 0.8}})
         if i > 0 and rng.random() < 0.5:
             m["deps"].append([rng.randrange(i), i, 0])
+        if rng.random() < 0.35:
+            # a sub-project task that is NOT automatic: it needs a worker like any other task
+            m["tasks"][i]["auto"] = False
+            tm = m["teams"][0]
+            if i not in tm["targets"]:
+                tm["targets"].append(i)
+            tm["workers"][0]["skills"]["t%d" % i] = 1.0
         spec["ranks"] = G.gen_ranks(rng, m)
     return spec
 
@@ -187,6 +194,8 @@ def run(spec):
         scen.configure_subtasks(b, model)
         if any(t.get("sub") and not t["sub"].get("configure", True) for t in model["tasks"]):
             res.count("unconfigured_subproject_task")
+        if any(t.get("sub") and t.get("auto") is False for t in model["tasks"]):
+            res.count("non_auto_subproject_task")
     p = b.project
     seams.attach(p)
     out = None
